@@ -302,7 +302,9 @@ func (e *SendSideBWE) onDelayUpdate(delayStats DelayStats) {
 
 	lossStats := e.lossController.getEstimate(delayStats.TargetBitrate)
 	bitrateChanged := false
-	bitrate := min(delayStats.TargetBitrate, lossStats.TargetBitrate)
+	// The loss based controller clamps to its own fixed range (100 kbit/s .. 100 Mbit/s), so the
+	// minimum of both estimates has to be brought back into the configured range.
+	bitrate := clampInt(min(delayStats.TargetBitrate, lossStats.TargetBitrate), e.minBitrate, e.maxBitrate)
 	if bitrate != e.latestBitrate {
 		bitrateChanged = true
 		e.latestBitrate = bitrate
